@@ -1,5 +1,9 @@
 import OpenFecVerif.Model.Rfc5170
 import OpenFecVerif.Props.C19
+import OpenFecVerif.Props.C04
+import OpenFecVerif.Proofs.RfcWF
+import OpenFecVerif.Proofs.MLComplete
+import OpenFecVerif.Proofs.SessWF
 /-!
 # C05 — the LDPC-Staircase code depends only on (k, n, N1, seed)
 
@@ -56,3 +60,38 @@ theorem C05_staircase (rn : Rat → Rat) (g k r N1 seed : Nat) (M : Matrix)
 theorem C05_rejects_large_N1 (rn : Rat → Rat) (g k r N1 seed : Nat) (h : N1 > r) :
     (create rn g k r N1 seed).2 = none := by
   simp [create, h]
+
+
+/-- the translated generator is well behaved for every rounding operator of the binary64 standard model (C19) -/
+theorem C05_goodRand (rn : ℚ → ℚ) (h : RN53 rn) : RfcWF.GoodRand rn := by
+  intro s maxv h1 h2 hm1 hm
+  exact ⟨C19_range rn h s maxv h1 h2 hm1 hm, (C19_step rn s maxv h1 h2).2.1, (C19_step rn s maxv h1 h2).2.2⟩
+
+/-- **Every matrix the construction returns, for every (k, n−k, N1, seed), is well formed and has the staircase shape**: n−k
+equations; no repeated entry; entries below n; no equation with a single entry; equation i contains repair symbol k+i and otherwise
+only smaller symbols.  These are exactly the hypotheses of the decoder theorems: `wfCheck` (C04), `WFH` and `stairCheck` (C03), the
+duplicate-freeness used by C01 — so those theorems hold for every accepted LDPC-Staircase configuration. -/
+theorem C05_matrix_wf (rn : ℚ → ℚ) (hrn : RN53 rn) (g k r N1 seed : Nat) (hk : 1 ≤ k) (hr : 1 ≤ r) (hk63 : k < 2 ^ 63) (hr63 : r < 2 ^ 63)
+    (ht63 : N1 * k < 2 ^ 63) (h1 : 1 ≤ seed) (h2 : seed ≤ 2147483646) (g' : Nat) (M : Matrix)
+    (h : create rn g k r N1 seed = (g', some M)) :
+    M.rows.length = r ∧ wfCheck (k + r) M.rows = true ∧ MLComplete.WFH M.rows (k + r) ∧ Api.stairCheck k M.rows = true := by
+  obtain ⟨q1, q2, q3⟩ := RfcWF.create_wf rn (C05_goodRand rn hrn) g k r N1 seed hk hr hk63 hr63 ht63 ⟨h1, h2⟩ g' M h
+  refine ⟨q1, ?_, fun row hrow => ⟨(q2 row hrow).1, (q2 row hrow).2.1⟩, q3⟩
+  unfold wfCheck
+  rw [List.all_eq_true]
+  intro row hrow
+  obtain ⟨a, b, c⟩ := q2 row hrow
+  simp only [Bool.and_eq_true, List.all_eq_true, decide_eq_true_eq, bne_iff_ne, ne_eq]
+  exact ⟨⟨fun e he => b e he, c⟩, a⟩
+
+
+/-- **Every accepted LDPC-Staircase configuration yields a session that meets the hypotheses of the decoder theorems** (C01, C03, C04,
+C10, C11): if `of_set_fec_parameters` (session model) returns OK, the session has n−k equations, duplicate-free, within 0..n−1, none with a
+single entry, staircase shaped, and its decoder state is initialised for k source symbols.  `GoodRand CSem.rne53` says that the rounding
+function the executable model uses behaves like the binary64 standard model on the generator's expression (`C05_goodRand` proves it for
+every operator satisfying `RN53`; the executable one is compared with the compiled C on millions of states by the C19 check). -/
+theorem C05_configured_session {σ : Type} (IO : Api.SymIO σ) (hgood : RfcWF.GoodRand CSem.rne53) (g : Nat) (s : Api.Session σ)
+    (p : Api.Params) (g' : Nat) (s' : Api.Session σ) (hc : s.codec = 3) (h : Api.setParamsStd IO g s p = (g', Api.Status.ok, s')) :
+    s'.H.length = p.r ∧ MLComplete.WFH s'.H (p.k + p.r) ∧ (∀ row ∈ s'.H, row.length ≠ 1) ∧ Api.stairCheck p.k s'.H = true ∧
+    s'.mlConsumed = s.mlConsumed ∧ ∃ it, s'.it = some it ∧ it.k = p.k :=
+  SessWF.configured_structure IO hgood g s p g' s' hc h
